@@ -407,4 +407,34 @@ def rule_e(ctx: Ctx) -> None:
                 'or is a reviewed exemption; included/imported schemas share the global maps and their settings.')
 
 
-RULES = [rule_a, rule_b, rule_c, rule_d, rule_e]
+def rule_f(ctx: Ctx) -> None:
+    """The URL that access_control prefix-tests has no dot segments: every local-path exit of normalize_url
+    serialises a *normalised* path (`….normalize().as_uri()` / `.as_posix()`)."""
+    rule = 'C12.f'
+    f = ctx.idx.func('xmlschema.utils.urls.normalize_url')
+    ctx.analysed(f.qualname)
+    n = 0
+    for e in ast.walk(f.node):
+        if isinstance(e, ast.Call) and isinstance(e.func, ast.Attribute) and e.func.attr in ('as_uri', 'as_posix'):
+            n += 1
+            recv = e.func.value
+            ok = isinstance(recv, ast.Call) and isinstance(recv.func, ast.Attribute) and recv.func.attr == 'normalize'
+            ctx.ob(rule, f'normalize_url: `{text(e)[:60]}` serialises a path whose dot segments were removed', f.loc(e), ok,
+                   '' if ok else 'the path is serialised without .normalize(): `<sandbox>/../outside/x.xsd` keeps its `..` and still '
+                   'starts with the sandbox prefix', key=f'normalize_url|normalized|{text(e)[:60]}')
+    ctx.floor(rule, 'path serialisations in normalize_url', n, 8)
+    # LocationPath.normalize collapses '..' (os.path.normpath semantics)
+    lp = ctx.idx.cls('xmlschema.utils.paths.LocationPath')
+    m = lp.find_method('normalize')
+    ok = m is not None and 'normpath' in text(m.node)
+    ctx.ob(rule, 'LocationPath.normalize removes dot segments (normpath)', m.loc() if m else f'{lp.module.relpath}:{lp.node.lineno}', ok, '', key='LocationPath.normalize')
+    # get_url (what __init__ checks and open() opens) goes through normalize_url
+    gu = ctx.idx.func(f'{RES}.get_url')
+    rets = [text(r.value) for r in ast.walk(gu.node) if isinstance(r, ast.Return)]
+    ok = rets == ['normalize_url(uri, self._base_url)']
+    ctx.ob(rule, 'XMLResource.get_url returns the normalised URL', gu.loc(), ok, f'{rets}', key='get_url|normalize')
+    ctx.explain('C12.f: every local-path return of normalize_url serialises `.normalize()`d paths, so the URL that the sandbox '
+                'prefix test sees has no `..` segments.')
+
+
+RULES = [rule_a, rule_b, rule_c, rule_d, rule_e, rule_f]
